@@ -22,11 +22,32 @@ def parents(root: ast.AST) -> dict[int, ast.AST]:
     return out
 
 
-def enclosing_try(node: ast.AST, par: dict[int, ast.AST], stop: ast.AST) -> tuple[ast.Try | None, str]:
-    """innermost Try having `node` in its body / handlers / orelse / finalbody"""
+def suppress_as_try(prog: Program, fi: FuncInfo, w: ast.With) -> ast.Try | None:
+    if len(w.items) != 1:
+        return None
+    e = w.items[0].context_expr
+    if not (isinstance(e, ast.Call) and e.args and not e.keywords):
+        return None
+    t = prog.type_of(e.func, fi)
+    if not any(a[0] == "ext" and a[1] == "contextlib.suppress" for a in t):
+        return None
+    typ: ast.expr = e.args[0] if len(e.args) == 1 else ast.Tuple(elts=list(e.args), ctx=ast.Load())
+    h = ast.ExceptHandler(type=typ, name=None, body=[ast.Pass()])
+    tr = ast.Try(body=w.body, handlers=[h], orelse=[], finalbody=[])
+    for n in (h, tr):
+        ast.copy_location(n, w)
+    return tr
+
+
+def enclosing_try(node: ast.AST, par: dict[int, ast.AST], stop: ast.AST, prog: Program | None = None, fi: FuncInfo | None = None) -> tuple[ast.Try | None, str]:
+    """innermost Try (or `with contextlib.suppress(...)`) having `node` in its body / handlers / orelse / finalbody"""
     cur = node
     while cur is not stop and id(cur) in par:
         p = par[id(cur)]
+        if isinstance(p, ast.With) and prog is not None and fi is not None and any(cur is s for s in p.body):
+            tr = suppress_as_try(prog, fi, p)
+            if tr is not None:
+                return tr, "body"
         if isinstance(p, ast.Try):
             for part in ("body", "orelse", "finalbody"):
                 if any(cur is s for s in getattr(p, part)):
@@ -83,7 +104,7 @@ def run(rep: Report, prog: Program, tier: str) -> None:
             construct = f"{fi.qual}|{cat}"
             rep.analysed(fi.qual)
             rep.instance("R15.1", construct, {"function": fi.qual, "hook": cat, "line": n.lineno})
-            tr, part = enclosing_try(n, par, fi.node)
+            tr, part = enclosing_try(n, par, fi.node, prog, fi)
             if tr is None or part != "body":
                 # R15.2: wrapper exemption
                 if is_transfer_wrapper(prog, fi, cat):
@@ -146,7 +167,7 @@ def run(rep: Report, prog: Program, tier: str) -> None:
                 if cats:
                     if par is None:
                         par = parents(fi.node)
-                    tr, part = enclosing_try(n, par, fi.node)
+                    tr, part = enclosing_try(n, par, fi.node, prog, fi)
                     rep.instance("R15.1", f"{fi.qual}|await-{sorted(cats)[0]}")
                     K2 = [K.handler_classes(h.type, fi) for h in tr.handlers] if tr is not None else []
                     ok = tr is not None and part == "body" and all(any(K.catches(cl, k) and swallowing(tr.handlers[i]) for i, cl in enumerate(K2)) for k in exc_kinds)
